@@ -598,6 +598,68 @@ def run_epoch_history(block, ctx):
     ctx.sample(block[len(block) // 2])
 
 
+# -- every civil day of the whole JDE range, read back -----------------------------------------------------------
+
+def run_every_day(block, ctx):
+    """block = (n_lo, n_hi): for EVERY integer day number n in it, the instants n - 0.5 (0h) and n - 0.25 (6h) are
+    read back through get_date(): year, month and day of month must be the model's (the range 0 .. 5.4e6 reaches
+    year 10 072: a century-number slip that shows on one single day - 1 March 6700 - is inside it)."""
+    n_lo, n_hi = block
+    f = fast()
+    bad = 0
+    for n in range(n_lo, n_hi):
+        exp = f.date(n)
+        for fr in (0.0, 0.25):
+            try:
+                y, m, d = Epoch(n - 0.5 + fr).get_date()
+            except Exception as ex:
+                ctx.viol({"jde": n - 0.5 + fr}, "Epoch(%r).get_date() raised %r" % (n - 0.5 + fr, ex), site="every_day")
+                bad += 1
+                continue
+            if (y, m, int(d)) != exp or abs(d - int(d) - fr) > 1e-9:
+                bad += 1
+                if bad <= 5:
+                    ctx.viol({"jde": n - 0.5 + fr}, "Epoch(%r).get_date() = %r, the model gives %r + %r"
+                             % (n - 0.5 + fr, (y, m, d), exp, fr), site="every_day")
+    ctx.evals += 2 * (n_hi - n_lo)
+    ctx.nt_count += n_hi - n_lo
+    ctx.outcome(bad)
+    ctx.obs(block, bad)
+    ctx.sample({"jde": n_lo - 0.5, "to": n_hi - 0.5})
+
+
+def check_negative_results(case):
+    """Arithmetic whose result lies before JDE 0 still obeys (e + x) - e == x and e - (e + x) == -x."""
+    j, x = case["jde"], case["x"]
+    out = []
+    try:
+        e = Epoch(j)
+        r = e + x
+        d1 = r - e
+        d2 = e - r
+        f = Epoch(j)
+        f += x
+        d3 = f - Epoch(j)
+        for lab, v, exp in (("(e + x) - e", d1, x), ("e - (e + x)", d2, -x), ("(e += x) - e", d3, x)):
+            if abs(float(v) - exp) > 1e-9 * max(1.0, abs(exp)):
+                out.append(("negative_result", "%s = %r for e = Epoch(%r), x = %r" % (lab, float(v), j, x), abs(float(v) - exp)))
+        if abs(r.jde() - (j + x)) > 1e-9 * max(1.0, abs(j + x)):
+            out.append(("negative_result", "(Epoch(%r) + %r).jde() = %r" % (j, x, r.jde()), None))
+    except Exception as ex:
+        out.append(("negative_result", "arithmetic Epoch(%r) + %r raised %r" % (j, x, ex), None))
+    return out
+
+
+def run_negative(block, ctx):
+    for case in block:
+        ctx.evals += 4
+        ctx.nt_count += 1
+        for site, msg, dev in check_negative_results(case):
+            ctx.viol(case, msg, dev=dev, site=site)
+        ctx.outcome(case["x"])
+    ctx.sample(block[0])
+
+
 def clauses(tier):
     lat = lattice(tier)
     bfs_specs = [(j0, 3, OPERANDS_FULL) for j0 in INITIALS]
@@ -606,6 +668,11 @@ def clauses(tier):
     return [
         Clause("roundtrip", chunks(lat, 64), run_roundtrip, replay_roundtrip, floor=1000),
         Clause("forms", chunks(form_instants(tier), 16), run_forms, replay_forms, floor=500),
+        Clause("every_day_readback", [(k * 50000, min((k + 1) * 50000, 5400001)) for k in range(109)], run_every_day,
+               lambda c: [m for _, m, _ in check_point(c["jde"])[0]], floor=5000000, shape="S"),
+        Clause("negative_results", [[{"jde": j, "x": x} for j in (0.0, 0.75, 1000.25, 2451545.0)
+                                     for x in (-1.5, -5000.0, -1000.75, -1e6, -2451545.5, -5e6)]], run_negative,
+               lambda c: [m for _, m, _ in check_negative_results(c)], floor=20, shape="H"),
         Clause("arith_bfs", bfs_specs, run_bfs, replay_bfs, floor=1000, shape="H"),
         Clause("object_history", chunks(epoch_history_cases(4 if tier == "thorough" else 3), 32),
                run_epoch_history, check_epoch_history, floor=500, shape="H"),
